@@ -9,7 +9,7 @@ import (
 
 func init() {
 	Register("C09", "Decides structural necessary conditions of determinism: (maprange) no observable result depends on map iteration order; (addr) no address or pointer-bearing struct is rendered into text; (src) no clock/random/environment/goroutine source is reachable from the entry points. Does NOT decide equality of results across processes in general.",
-		c09maprange, c09addr, c11extAs("C09.ext"), c10share("C09.share"), oncePanicRule("C09.oncepanic"), ctorOrderRule("C09.ctor"))
+		addrOrderRule("C09.addrorder"), c09maprange, c09addr, c11extAs("C09.ext"), c10share("C09.share"), oncePanicRule("C09.oncepanic"), ctorOrderRule("C09.ctor"))
 }
 
 // c09addr: no heap address in anything observable.
